@@ -167,6 +167,13 @@ pub fn check_case(rep: &mut Report, text: &str, ast: &[Rule], vm: &pest_vm::Vm, 
             rep.known_finding("c01-plus-unrolled-trailing-skip", witness);
             return;
         }
+        if matches!(c2.reference, Outcome::Budget | Outcome::Diverges(_)) {
+            // under the `e ~ e*` reading the reference does not finish within its step budget (deeply
+            // recursive skip rules): the listed finding cannot be told from a new one here
+            rep.inconclusive(json!({"why": "disagreement under the documented reading of e+, and the reference runs out of its step budget under the e ~ e* reading that would explain it",
+                                    "grammar": text, "rule": rule, "input": input}));
+            return;
+        }
     }
     rep.violation(witness);
 }
